@@ -12,7 +12,8 @@ RULE = ("masters (the BIP85 reference xprv, keys from the scalar/chain-code boun
         "out-of-range grid: word counts {0,11,13,25,-12,2^31+12}, byte counts {-16,0,15,65,2^31+16}, lengths {19,87,0,-20}, indexes "
         "{-1,-2,-2^31,2^31,2^32-1,2^32} for all five applications; pairwise distinctness of all results of one master. Oracle: "
         "reference BIP85 over reference BIP32 (all levels hardened). non-trivial = value compared with the reference / refusal "
-        "observed; distinct by construction")
+        "observed; distinct by construction"
+        "; intermediate-corner classes (vf/corners.py) for the path key and the 64 entropy bytes per application family; the paper wallet's BIP85 block as a request in the cross-master histories")
 
 REF_XPRV = "xprv9s21ZrQH143K2LBWUUQRFXhucrQqBpKdRRxNVq2zBqsx8HVqFk2uYo8kmbaLLHRdqtQpUm98uKfu3vca1LqdGhUtyoFnCNkfmXRyPXLjbKb"
 
